@@ -514,7 +514,7 @@ class SimFS:
                     buf = io.BufferedReader(raw)
                 if binary:
                     return buf
-                return io.TextIOWrapper(buf, encoding or self.encoding, errors, newline)
+                return io.TextIOWrapper(buf, self.encoding if encoding in (None, 'locale') else encoding, errors, newline)
             return _real_open(file, mode, buffering, encoding, errors, newline, closefd, opener)
         n = self.norm(file)
         binary = 'b' in mode
@@ -523,7 +523,7 @@ class SimFS:
             if writing:
                 self.gaps.append(('write-outside', n, mode))
                 raise PermissionError(errno.EACCES, 'Permission denied (outside sim)', n)
-            if not binary and encoding is None:
+            if not binary and encoding in (None, 'locale'):
                 encoding = self.encoding
             return _real_open(file, mode, buffering, encoding, errors, newline, closefd, opener)
         idx, f = self._event('open', n, mode)
@@ -582,7 +582,9 @@ class SimFS:
             buf = io.BufferedReader(raw)
         if binary:
             return buf
-        text = io.TextIOWrapper(buf, encoding or self.encoding, errors, newline)
+        if encoding in (None, 'locale'):
+            encoding = self.encoding          # "locale" is what io.text_encoding() / pathlib pass for "the default"
+        text = io.TextIOWrapper(buf, encoding, errors, newline)
         text.mode = mode
         return text
 
@@ -912,6 +914,9 @@ def install(world):
     os.scandir = _scandir
     builtins.open = fs.open
     io.open = fs.open
+    # the harness interpreter may run in UTF-8 mode (C locale), where io.text_encoding(None) answers 'utf-8'; the
+    # simulated process has the simulated locale, so "no encoding given" must stay "the locale's encoding"
+    io.text_encoding = lambda encoding, stacklevel=2: 'locale' if encoding is None else encoding
     shutil.rmtree = fs.rmtree
     tempfile.mkdtemp = fs.mkdtemp
     tempfile.tempdir = SIM_ROOT + '/tmp'          # tempfile.gettempdir() answers with the simulated temp directory
